@@ -18,6 +18,8 @@ import DefconModel.Lemmas.ReprName
 import DefconModel.Lemmas.ReprKey
 import DefconModel.Lemmas.ReprGeom
 import DefconModel.Lemmas.ReprDom
+import DefconModel.Lemmas.ReprDep
+import DefconModel.ReprLayers
 import DefconModel.Gen.ReprTables
 
 namespace DefconModel.Props.C03
@@ -274,5 +276,172 @@ example : (digest (step exParams Gen.ReprTables.tables exWorld (.rename "C" "D")
 example : PatchOK exParams := by intro nm _ ver ox oy dx dy; rfl
 
 end Example
+
+/-! ### round 3: the dependency matrix as a table; user holds; a second layer -/
+
+section Round3
+
+/-- the universal factory: the value of a representation is the view it reads (so "stale" is visible as an inequality) -/
+def hexWorld : HWorld (List Tok) := { w := run uniParams Gen.ReprTables.tables {} exOps }
+
+/-- **cells_agree.**  The public table `mutSpecs` (per class and mutator: cells it may rewrite, cells an effective call must
+rewrite, guard) and the cell codes the primitives of the model use say the same, row by row. -/
+theorem cells_agree : cellsAgree = true := by decide
+
+example : (specOf "Component" "_set_transformation").map (·.guard) = some Guard.same := by decide
+example : (specOf "Contour" "reverse").map (·.cells) = some [Cell.contourPoints, Cell.contourIdent] := by decide
+
+/-- **dependency_sound.**  A representation's factory is any function of its row of the dependency matrix (`viewOf`: the
+stamps of the cells the matrix lists for it - for a component or a glyph, to any nesting depth).  Take any call of an
+*inner* mutator (every row of the table but `Contour.move` and `Component._set_baseGlyph`: point-list, identifier,
+transformation, attribute, groups mutators, and calls that post although they rewrite nothing) on any world of the
+structural domain, any attached object `o` and any name `nm` registered for its class.  Then
+  * if the call leaves the cells `nm` reads on `o` unchanged, the factory's value is unchanged: whatever is cached
+    may be served;
+  * if the call rewrites one of them, every entry under `nm` on `o` is gone after the call.
+Nothing here is supplied by the adaptor: the stamps are set by the model from the table, the notifications come from
+the regenerated table of the source. -/
+theorem dependency_sound (P : Params V) (T : Tables) (hcov : Coverage T = true) (w : World V) (op : Op)
+    (hin : op.isInner = true) (hd : Dom w) (hd' : Dom (step P T w op).1) (hr : RegsDefault T w)
+    (o : Obj) (nm : String) (hatt : attached w o = true)
+    (hreg : (facsOf T w.regs o.cls).any (fun p => p.1 = nm) = true) :
+    (viewOf T (step P T w op).1 o nm = viewOf T w o nm →
+        ∀ sk, fresh P T (step P T w op).1 o nm sk = fresh P T w o nm sk) ∧
+    (viewOf T (step P T w op).1 o nm ≠ viewOf T w o nm →
+        ∀ sk, (cacheOf (step P T w op).1 o).get? nm sk = none) := by
+  constructor
+  · intro h sk; unfold fresh; rw [h]
+  · intro h sk; exact dep_evicts P T hcov w op hin hd hd' hr o nm hatt hreg h sk
+
+/-- reversing the contour in C rewrites a cell that the bounds of the component in A read (two hops away) … -/
+example : viewOf Gen.ReprTables.tables (step exParams Gen.ReprTables.tables exWorld (.cmut 1 "reverse")).1 (.comp 3)
+    "defcon.component.bounds" ≠ viewOf Gen.ReprTables.tables exWorld (.comp 3) "defcon.component.bounds" := by decide
+/-- … giving the contour an identifier does not -/
+example : viewOf Gen.ReprTables.tables (step exParams Gen.ReprTables.tables exWorld (.cmut 1 "_set_identifier")).1 (.comp 3)
+    "defcon.component.bounds" = viewOf Gen.ReprTables.tables exWorld (.comp 3) "defcon.component.bounds" := by decide
+example : (Op.cmut 1 "reverse").isInner = true := rfl
+
+/-- **hold_free_is_plain.**  While the user holds and disables nothing, the model with holds IS the plain model: every
+theorem above speaks about such histories unchanged. -/
+theorem hold_free_is_plain (P : Params V) (T : Tables) (hw : HWorld V) (op : Op) (hq : hw.quiet = true) :
+    (hstep P T hw (.base op)).1.w = (step P T hw.w op).1 ∧ (hstep P T hw (.base op)).2 = (step P T hw.w op).2 ∧
+    (hstep P T hw (.base op)).1.holds = hw.holds ∧ (hstep P T hw (.base op)).1.queue = hw.queue := by
+  simp [hstep, hq]
+
+example : hexWorld.quiet = true := by decide
+
+/-- cached under `nm` (no keyword arguments) on `o`, and not what the factory computes now -/
+def StaleAt (w : World (List Tok)) (o : Obj) (nm : String) : Prop :=
+  (cacheOf w o).get? nm none ≠ none ∧
+  (cacheOf w o).get? nm none ≠ some (fresh uniParams Gen.ReprTables.tables w o nm none)
+
+instance (w : World (List Tok)) (o : Obj) (nm : String) : Decidable (StaleAt w o nm) := by
+  unfold StaleAt; exact inferInstance
+
+/-- the user holds the contour of C and appends a point -/
+def heldEdit : HWorld (List Tok) :=
+  hrun uniParams Gen.ReprTables.tables hexWorld [.hold (.contour 1), .base (.cmut 1 "appendPoint")]
+
+/-- **stale_inside_hold.**  Is a representation requested INSIDE a user hold stale?  YES: `contour.holdNotifications()`
+queues every post of the contour, its own `selfNotificationCallback` included.  Witness (A → B → C by components, every
+cache filled): the user holds the contour of C and appends a point.  The contour's cached bounds are still there and
+differ from what the factory computes now; a request is answered from the cache (`got 0`); the same holds two component
+hops up.  The property's histories are interleavings of requests and public mutators - `holdNotifications` is
+neither -, so this is the edge of the property's domain, not a defect of the code. -/
+theorem stale_inside_hold :
+    StaleAt heldEdit.w (.contour 1) "defcon.contour.bounds" ∧
+    (hstep uniParams Gen.ReprTables.tables heldEdit (.base (.get (.contour 1) "defcon.contour.bounds" []))).2 = .got 0 ∧
+    StaleAt heldEdit.w (.comp 3) "defcon.component.bounds" := by decide +kernel
+
+/-- … and the release delivers what was queued: nothing stale is left (the general statement is `release_restores`) -/
+example : digest (hrun uniParams Gen.ReprTables.tables heldEdit [.release (.contour 1)]).w = [] := by decide +kernel
+
+def heldMove : HWorld (List Tok) :=
+  hrun uniParams Gen.ReprTables.tables hexWorld [.hold (.contour 1), .base (.cmove 1 5 7)]
+
+/-- **move_is_direct_inside_hold.**  What a mutator does by DIRECT calls happens inside a hold too: `Contour.move` patches
+the two bounds entries of the held contour in place (they stay right) - only what depends on the notification (the
+glyph's area, the bounds of the components that reference the glyph) goes stale. -/
+theorem move_is_direct_inside_hold :
+    (cacheOf heldMove.w (.contour 1)).get? "defcon.contour.bounds" none =
+      some (fresh uniParams Gen.ReprTables.tables heldMove.w (.contour 1) "defcon.contour.bounds" none) ∧
+    StaleAt heldMove.w (.comp 3) "defcon.component.bounds" := by decide +kernel
+
+def disabledEdit : HWorld (List Tok) :=
+  hrun uniParams Gen.ReprTables.tables hexWorld
+    [.disable (.contour 1), .base (.cmut 1 "appendPoint"), .enable (.contour 1)]
+
+/-- **disable_loses_eviction.**  `disableNotifications` loses the eviction for good: after `enable` the stale value is
+still served, until some later change evicts it.  (A disable is a request NOT to be told; the property's histories do
+not contain it.) -/
+theorem disable_loses_eviction :
+    disabledEdit.quiet = true ∧ StaleAt disabledEdit.w (.contour 1) "defcon.contour.bounds" := by decide +kernel
+
+/-- **other_layer_invisible.**  Whatever happens in one layer - edits, renames, deletions, holds, requests - the other
+layer keeps its glyphs, its caches, its holds and its queue: a component whose base name exists in the other layer only
+does not follow that glyph (for it the name is missing), and no request in one layer is answered from the other.  (The
+one thing that crosses is the record of an object that belongs to no glyph, when it is inserted on the other side.) -/
+theorem other_layer_invisible (P : Params V) (T : Tables) (f : Font V) (l : Lay) (hop : HOp) :
+    ((fstep P T f l hop).1.get l.other).w.glyphs = (f.get l.other).w.glyphs ∧
+    ((fstep P T f l hop).1.get l.other).w.caches = (f.get l.other).w.caches ∧
+    ((fstep P T f l hop).1.get l.other).holds = (f.get l.other).holds ∧
+    ((fstep P T f l hop).1.get l.other).queue = (f.get l.other).queue := by
+  have hset : ∀ (g : Font V) (hw : HWorld V), (g.set l hw).get l.other = g.get l.other := by
+    intro g hw; cases l <;> rfl
+  have hset2 : ∀ (g : Font V) (hw : HWorld V), (g.set l.other hw).get l.other = hw := by
+    intro g hw; cases l <;> rfl
+  have hmig : ∀ op, ((migrate f l op).get l.other).w.glyphs = (f.get l.other).w.glyphs ∧
+      ((migrate f l op).get l.other).w.caches = (f.get l.other).w.caches ∧
+      ((migrate f l op).get l.other).holds = (f.get l.other).holds ∧
+      ((migrate f l op).get l.other).queue = (f.get l.other).queue := by
+    intro op
+    unfold migrate
+    cases op <;> try exact ⟨rfl, rfl, rfl, rfl⟩
+    · rename_i g cid idx
+      simp only
+      cases (f.get l.other).w.looseC.find? (fun c => c.id = cid) with
+      | none => exact ⟨rfl, rfl, rfl, rfl⟩
+      | some c =>
+        simp only
+        split
+        · exact ⟨rfl, rfl, rfl, rfl⟩
+        · rw [hset2]; exact ⟨rfl, rfl, rfl, rfl⟩
+    · rename_i g kid idx
+      simp only
+      cases (f.get l.other).w.looseK.find? (fun k => k.id = kid) with
+      | none => exact ⟨rfl, rfl, rfl, rfl⟩
+      | some k =>
+        simp only
+        split
+        · exact ⟨rfl, rfl, rfl, rfl⟩
+        · rw [hset2]; exact ⟨rfl, rfl, rfl, rfl⟩
+  cases hop with
+  | base op =>
+    by_cases hreg : ∃ cls name, op = .register cls name
+    · obtain ⟨cls, name, rfl⟩ := hreg
+      cases l <;> simp only [fstep, hstep, step, Font.get, Lay.other] <;> split <;> exact ⟨rfl, rfl, rfl, rfl⟩
+    · have : (fstep P T f l (.base op)).1 = (migrate f l op).set l (hstep P T ((migrate f l op).get l) (.base op)).1 := by
+        cases op <;> first | rfl | exact absurd ⟨_, _, rfl⟩ hreg
+      rw [this, hset]; exact hmig op
+  | hold o => simp only [fstep]; rw [hset]; exact ⟨rfl, rfl, rfl, rfl⟩
+  | release o => simp only [fstep]; rw [hset]; exact ⟨rfl, rfl, rfl, rfl⟩
+  | disable o => simp only [fstep]; rw [hset]; exact ⟨rfl, rfl, rfl, rfl⟩
+  | enable o => simp only [fstep]; rw [hset]; exact ⟨rfl, rfl, rfl, rfl⟩
+
+def layOps : List (Lay × HOp) :=
+  [(.a, .base (.newGlyph "A")), (.a, .base (.mkComp 1 (some "X"))), (.a, .base (.insComp "A" 1 0)),
+   (.b, .base (.newGlyph "X")), (.b, .base (.mkContour 2)), (.b, .base (.insContour "X" 2 0)),
+   (.a, .base (.get (.comp 1) "defcon.component.bounds" []))]
+
+def layFont1 : Font Nat := layOps.foldl (fun f p => (fstep exParams Gen.ReprTables.tables f p.1 p.2).1) {}
+def layFont2 : Font Nat := (fstep exParams Gen.ReprTables.tables layFont1 .b (.base (.cmut 2 "reverse"))).1
+
+/-- the second layer has a glyph X; the first layer's component on X reads `missing` before and after X is edited there -/
+example : viewOf Gen.ReprTables.tables layFont2.l0.w (.comp 1) "defcon.component.bounds" = [Tok.k 2, Tok.missing] := by
+  decide +kernel
+example : (digest layFont1.l0.w).map Prod.fst = [Obj.comp 1] := by decide +kernel
+example : (digest layFont2.l0.w).map Prod.fst = [Obj.comp 1] := by decide +kernel
+
+end Round3
 
 end DefconModel.Props.C03
